@@ -131,3 +131,50 @@ Proof.
   - intros [[g' e] [E H]]. cbn in E. subst. apply filter_In in H. destruct H as [H1 H2]. exists e. split; [exact H1|]. apply negb_true_iff in H2. exact H2.
   - intros [e [H1 H2]]. exists (g, e). split; [reflexivity|]. apply filter_In. split; [exact H1|]. cbn. rewrite H2. reflexivity.
 Qed.
+
+(* ---- aggregates over an index set, in the order fixed by the chosen geo index *)
+Lemma vadd_length a b : length a = length b -> length (vadd a b) = length a.
+Proof. revert b; induction a as [|x a IH]; intros [|y b] H; cbn in *; try discriminate; [reflexivity|]. f_equal. apply IH. now injection H. Qed.
+Lemma vadd_nth a : forall b k, length a = length b -> (k < length a)%nat -> nth k (vadd a b) 0 = nth k a 0 + nth k b 0.
+Proof.
+  induction a as [|x a IH]; intros [|y b] k H Hk; cbn in *; try discriminate; try (exfalso; inversion Hk; fail).
+  destruct k as [|k]; [reflexivity|]. apply IH; [now injection H|apply Nat.succ_lt_mono; exact Hk].
+Qed.
+Lemma series_length rows g : length (series rows g) = length (dates_of rows).
+Proof. unfold series. apply map_length. Qed.
+Lemma aggregate_series_length rows gi idx : length (aggregate_series rows gi idx) = length (dates_of rows).
+Proof.
+  unfold aggregate_series. induction idx as [|i idx IH]; cbn [fold_right]; [apply map_length|].
+  rewrite vadd_length; [apply series_length|]. now rewrite series_length, IH.
+Qed.
+(* on the k-th date the aggregate is the sum, over the positions in the index set, of the cell of the geo that the geo
+   index puts at that position *)
+Theorem aggregate_series_spec rows gi idx k : (k < length (dates_of rows))%nat ->
+  nth k (aggregate_series rows gi idx) 0
+  == qsum (map (fun i => cell rows (nth i gi 0%Z) (nth k (dates_of rows) 0%Z)) idx).
+Proof.
+  intros Hk. induction idx as [|i idx IH].
+  - unfold aggregate_series. cbn [fold_right map qsum]. clear Hk. revert k.
+    induction (dates_of rows) as [|d ds IHd]; intros [|k]; cbn [map nth]; try reflexivity. apply IHd.
+  - change (aggregate_series rows gi (i :: idx)) with (vadd (series rows (nth i gi 0%Z)) (aggregate_series rows gi idx)).
+    rewrite vadd_nth; [|now rewrite series_length, aggregate_series_length|now rewrite series_length].
+    rewrite IH. cbn [map qsum fold_right]. unfold series.
+    rewrite (nth_indep _ 0 (cell rows (nth i gi 0%Z) 0%Z)) by (now rewrite map_length). rewrite map_nth. reflexivity.
+Qed.
+Theorem aggregate_share_spec rows gi idx :
+  aggregate_share rows gi idx = qsum (map (fun i => geo_mean rows (nth i gi 0%Z) / qsum (map (geo_mean rows) (geos_of rows))) idx).
+Proof. reflexivity. Qed.
+(* the geo index is accepted exactly when it is a non-empty list of assignable geos *)
+Theorem set_geo_index_spec tbl gi :
+  set_geo_index tbl gi = Accept gi <-> (gi <> [] /\ forall g, In g gi -> In g (assignable tbl)).
+Proof.
+  unfold set_geo_index. destruct (forallb (fun g => memz g (assignable tbl)) gi) eqn:H.
+  - rewrite forallb_forall in H. destruct gi as [|g gi]; split.
+    + discriminate.
+    + intros [Hn _]. now elim Hn.
+    + intros _. split; [discriminate|]. intros x Hx. apply memz_spec. now apply H.
+    + reflexivity.
+  - split; [discriminate|]. intros [_ Hall]. exfalso.
+    assert (forallb (fun g => memz g (assignable tbl)) gi = true); [|congruence].
+    apply forallb_forall. intros x Hx. apply memz_spec. now apply Hall.
+Qed.
